@@ -56,7 +56,8 @@ def work(case):
         out["indexed"] = indexed_edit_case(case, data, out["raw"])
         ix = out["indexed"]
         out["hyp"] = {"indexed_edit": bool(ix), "indexed_edit_inside_pending_insertion": bool(ix and ix.get("in_ins")),
-                      "indexed_edit_crossing_line_break": bool(ix and ix.get("crosses_break"))}
+                      "indexed_edit_crossing_line_break": bool(ix and ix.get("crosses_break")),
+                      "indexed_edit_range_with_markers": bool(ix and ix.get("with_markers"))}
     except Exception as e:
         out["err"] = f"{type(e).__name__}: {e}"
     return out
@@ -99,6 +100,16 @@ def indexed_edit_case(case, data, raw):
         # 'quiver' / 'quiver1' — or that sits in annotation text would otherwise address a different place)
         if raw[ta:tb].replace("*", "").replace("_", "") != "".join(c["c"] for c in seg).replace("*", "").replace("_", ""):
             continue
+        with_markers = False
+        if rng.random() < 0.5:
+            # the client may quote the words together with the emphasis markers around them: virtual characters at
+            # both ends of the range (also the closing marker of one line of a formatted run that goes on after a break)
+            ta0, tb0 = ta, tb
+            while ta > 0 and raw[ta - 1] in "*_":
+                ta -= 1
+            while tb < len(raw) and raw[tb] in "*_":
+                tb += 1
+            with_markers = (ta, tb) != (ta0, tb0)
         new = rng.choice(["", "", "SWAPPED", "x y"])
         edit = {"target": raw[ta:tb], "new": new, "comment": None, "index": ta}
         r = engine_run.run_edits(data, [edit])
@@ -106,7 +117,7 @@ def indexed_edit_case(case, data, raw):
         return {"edit": {"target": edit["target"], "new": new, "index": ta}, "pi": pv.pi, "expected": exp,
                 "res": {k: v for k, v in r.items() if k != "out_bytes"},
                 "crosses_break": any(c["c"] == "\n" for c in seg), "crosses_runs": len({c["run"] for c in seg}) > 1,
-                "in_ins": in_ins}
+                "in_ins": in_ins, "with_markers": with_markers}
     return None
 
 
